@@ -57,11 +57,12 @@ fn inject_unknown(ctx: &mut Ctx, v: &mut Value) {
     }
 }
 
-struct Req { challenge: Vec<u8>, timeout: Option<u32>, rp_id: Option<String>, allow: Option<Vec<(Vec<u8>, Option<Vec<&'static str>>)>>, uv: Option<&'static str>, hints: Option<Vec<&'static str>>, prf_first: Option<Vec<u8>> }
+struct Req { challenge: Vec<u8>, timeout: Option<u32>, rp_id: Option<String>, allow: Option<Vec<(Vec<u8>, Option<Vec<&'static str>>)>>, uv: Option<&'static str>, hints: Option<Vec<&'static str>>, formats: Option<Vec<&'static str>>, prf_first: Option<Vec<u8>> }
 fn rand_req(ctx: &mut Ctx) -> Req {
     Req { challenge: ctx.rng.bytes_in(0, 40), timeout: if ctx.rng.bool() { Some(ctx.rng.below(1 << 32) as u32) } else { None }, rp_id: if ctx.rng.bool() { Some("example.com".into()) } else { None },
         allow: if ctx.rng.bool() { Some((0..ctx.rng.below(3)).map(|_| (ctx.rng.bytes_in(1, 32), if ctx.rng.bool() { Some(vec!["usb", "internal"]) } else { None })).collect()) } else { None },
         uv: *ctx.rng.pick(&[None, Some("required"), Some("preferred"), Some("discouraged")]), hints: if ctx.rng.bool() { Some(vec!["security-key"]) } else { None },
+        formats: if ctx.rng.bool() { Some(vec!["packed", "tpm"]) } else { None },
         prf_first: if ctx.rng.bool() { Some(ctx.rng.bytes_in(1, 20)) } else { None } }
 }
 /// `variant` drives the presentation of every member; `unknowns`: inject unknown members, enum strings and list entries
@@ -84,6 +85,8 @@ fn req_json(ctx: &mut Ctx, r: &Req, variant: u64, unknowns: bool) -> Value {
     }
     match r.uv { Some(u) => { m.insert("userVerification".into(), json!(u)); } None => { if unknowns { m.insert("userVerification".into(), json!("telepathic")); } } }   // unknown value = the default, like absent
     if let Some(h) = &r.hints { let mut hl: Vec<Value> = h.iter().map(|s| json!(s)).collect(); if unknowns { hl.push(json!("implant")); } m.insert("hints".into(), json!(hl)); }
+    // unregistered attestation formats are dropped from the list, wherever they stand
+    if let Some(f) = &r.formats { let mut fl: Vec<Value> = f.iter().map(|s| json!(s)).collect(); if unknowns { fl.insert((variant % 3) as usize, json!("compound")); fl.push(json!("x")); } m.insert("attestationFormats".into(), json!(fl)); }
     if let Some(p) = &r.prf_first { m.insert("extensions".into(), json!({"prf": {"eval": {"first": present_bytes(p, variant / 8)}}})); }
     let mut v = Value::Object(m);
     if unknowns { inject_unknown(ctx, &mut v); }
@@ -122,6 +125,198 @@ fn cre_json(ctx: &mut Ctx, c: &Cre, variant: u64, unknowns: bool) -> Value {
     v
 }
 
+
+/// canonical rendering of parsed option values, member by member in declaration order (the model renders its
+/// generic value the same way: Driver/WebJson.lean `showVal`)
+pub mod canon {
+    use passkey_types::webauthn::*;
+    use passkey_types::Bytes;
+    use std::collections::HashMap;
+    fn hx(b: &[u8]) -> String { b.iter().map(|x| format!("{:02x}", x)).collect() }
+    pub trait Canon { fn c(&self) -> String; }
+    impl Canon for Bytes { fn c(&self) -> String { format!("h{}", hx(self)) } }
+    impl Canon for String { fn c(&self) -> String { format!("s{}", hx(self.as_bytes())) } }
+    impl Canon for bool { fn c(&self) -> String { if *self { "t".into() } else { "f".into() } } }
+    impl Canon for u32 { fn c(&self) -> String { self.to_string() } }
+    impl<T: Canon> Canon for Option<T> { fn c(&self) -> String { match self { None => "N".into(), Some(v) => format!("S({})", v.c()) } } }
+    impl<T: Canon> Canon for Vec<T> { fn c(&self) -> String { format!("[{}]", self.iter().map(|x| x.c()).collect::<Vec<_>>().join(",")) } }
+    impl<T: Canon> Canon for HashMap<String, T> { fn c(&self) -> String { let mut ks: Vec<&String> = self.keys().collect(); ks.sort();
+        format!("m{{{}}}", ks.iter().map(|k| format!("{}={}", hx(k.as_bytes()), self[*k].c())).collect::<Vec<_>>().join(";")) } }
+    impl Canon for coset::iana::Algorithm { fn c(&self) -> String { use coset::iana::EnumI64; self.to_i64().to_string() } }
+    macro_rules! canon_enum { ($($t:ty),*) => { $(impl Canon for $t { fn c(&self) -> String {
+        match serde_json::to_value(self) { Ok(serde_json::Value::String(s)) => format!("e:{}", s), other => format!("e?{:?}", other) } } })* } }
+    canon_enum!(UserVerificationRequirement, PublicKeyCredentialHints, AttestationConveyancePreference, AttestationStatementFormatIdentifiers,
+        PublicKeyCredentialType, AuthenticatorTransport, AuthenticatorAttachment, ResidentKeyRequirement);
+    macro_rules! canon_struct { ($t:ty { $($f:ident),* }) => { impl Canon for $t { fn c(&self) -> String {
+        let parts: Vec<String> = vec![$(format!("{}={}", stringify!($f), self.$f.c())),*]; format!("{{{}}}", parts.join(";")) } } } }
+    canon_struct!(CredentialRequestOptions { public_key });
+    canon_struct!(CredentialCreationOptions { public_key });
+    canon_struct!(PublicKeyCredentialRequestOptions { challenge, timeout, rp_id, allow_credentials, user_verification, hints, attestation, attestation_formats, extensions });
+    canon_struct!(PublicKeyCredentialCreationOptions { rp, user, challenge, pub_key_cred_params, timeout, exclude_credentials, authenticator_selection, hints, attestation, attestation_formats, extensions });
+    canon_struct!(PublicKeyCredentialDescriptor { ty, id, transports });
+    canon_struct!(AuthenticationExtensionsClientInputs { cred_props, prf, prf_already_hashed });
+    canon_struct!(PublicKeyCredentialRpEntity { id, name });
+    canon_struct!(PublicKeyCredentialUserEntity { id, display_name, name });
+    canon_struct!(PublicKeyCredentialParameters { ty, alg });
+    canon_struct!(AuthenticatorSelectionCriteria { authenticator_attachment, resident_key, require_resident_key, user_verification });
+    canon_struct!(AuthenticationExtensionsPrfInputs { eval, eval_by_credential });
+    canon_struct!(AuthenticationExtensionsPrfValues { first, second });
+}
+
+/// documents for the struct-level model: every member present / absent / null / of the wrong type, in any order,
+/// duplicated (also through an alias), with unknown members and values anywhere; built as text so that duplicate
+/// members can be written
+mod docs {
+    use crate::util::Ctx;
+    const BYTES: &[&str] = &["\"AQID\"", "[1,2,3]", "\"AQID==\"", "\"AQIDBA\"", "\"-_-_\"", "\"+/+/\"", "\"\"", "[]"];
+    const BYTES_BAD: &[&str] = &["null", "5", "\"!!\"", "[300]", "{}", "true", "[1,\"2\"]", "\"A\""];
+    const STR: &[&str] = &["\"example.com\"", "\"\"", "\"n\u{e9} \\u00e9\""];
+    const STR_BAD: &[&str] = &["5", "[\"a\"]", "{}", "true"];
+    const NUM: &[&str] = &["60000", "\"60000\"", "6.0e4", "\"1.0\"", "0", "4294967295", "\"4294967295\"", "1e3"];
+    const NUM_BAD: &[&str] = &["null", "-1", "4294967296", "\"abc\"", "true", "[1]", "{}", "\"\""];
+    const ANY: &[&str] = &["null", "5", "\"x\"", "[1,[2,{\"a\":null}]]", "{\"type\":\"public-key\",\"id\":5}", "true", "{}", "-1.5e3", "\"\\\"\\\\\""];
+    fn pick<'a>(ctx: &mut Ctx, good: &[&'a str], bad: &[&'a str], p_bad: u64) -> &'a str { if ctx.rng.below(100) < p_bad { *ctx.rng.pick(bad) } else { *ctx.rng.pick(good) } }
+    fn en(ctx: &mut Ctx, names: &[&str], p_bad: u64) -> String {
+        match ctx.rng.below(100) {
+            x if x < p_bad => (*ctx.rng.pick(&["5", "null", "true", "[\"required\"]", "{\"required\":1}", "{}", "1.5"])).to_string(),
+            x if x < p_bad + 25 => (*ctx.rng.pick(&["\"telepathic\"", "\"\"", "\"Required\"", "\"REQUIRED\"", "\"x-ray\"", "\"none \"", "\"cable\"", "\"unknown\""])).to_string(),
+            _ => format!("\"{}\"", ctx.rng.pick(names)),
+        }
+    }
+    fn list(ctx: &mut Ctx, mut elem: impl FnMut(&mut Ctx) -> String, p_bad: u64) -> String {
+        if ctx.rng.below(100) < p_bad { return (*ctx.rng.pick(&["null", "\"usb\"", "{}", "5", "true"])).to_string(); }
+        let n = ctx.rng.below(4);
+        format!("[{}]", (0..n).map(|_| elem(ctx)).collect::<Vec<_>>().join(","))
+    }
+    /// an object from (name, value) members: shuffled, one member sometimes repeated, unknown members injected
+    pub fn obj(ctx: &mut Ctx, mut members: Vec<(String, String)>, p_dup: u64, aliases: &[(&str, &str)]) -> String {
+        for i in (1..members.len()).rev() { let j = ctx.rng.below(i as u64 + 1) as usize; members.swap(i, j); }
+        if !members.is_empty() && ctx.rng.below(100) < p_dup {
+            let (k, v) = members[ctx.rng.below(members.len() as u64) as usize].clone();
+            let k2 = aliases.iter().find(|(a, _)| *a == k).map(|(_, b)| b.to_string()).filter(|_| ctx.rng.bool()).unwrap_or(k);
+            let at = ctx.rng.below(members.len() as u64 + 1) as usize; members.insert(at, (k2, v));
+        }
+        for _ in 0..ctx.rng.below(3) {
+            let k = (*ctx.rng.pick(&["zzz", "Challenge", "rp_id", "", "type ", "publicKey", "\\u0074ype2"])).to_string();
+            let at = ctx.rng.below(members.len() as u64 + 1) as usize; members.insert(at, (k, ctx.rng.pick(ANY).to_string()));
+        }
+        format!("{{{}}}", members.iter().map(|(k, v)| format!("\"{}\":{}", k, v)).collect::<Vec<_>>().join(","))
+    }
+    const TRANSPORTS: &[&str] = &["usb", "nfc", "ble", "hybrid", "internal", "cable"];
+    pub fn descriptor(ctx: &mut Ctx, p_bad: u64) -> String {
+        if ctx.rng.below(100) < p_bad / 2 { return (*ctx.rng.pick(&["5", "null", "[]", "\"x\"", "{}", "[\"public-key\",\"AQID\"]"])).to_string(); }
+        let mut m = vec![];
+        if ctx.rng.below(100) >= p_bad / 2 { m.push(("type".to_string(), en(ctx, &["public-key"], p_bad))); }
+        if ctx.rng.below(100) >= p_bad / 2 { m.push(("id".to_string(), pick(ctx, BYTES, BYTES_BAD, p_bad).to_string())); }
+        if ctx.rng.bool() { let t = list(ctx, |c| en(c, TRANSPORTS, 20), p_bad); m.push(("transports".to_string(), t)); }
+        obj(ctx, m, p_bad / 2, &[])
+    }
+    fn prf_values(ctx: &mut Ctx, p_bad: u64) -> String {
+        let mut m = vec![];
+        if ctx.rng.below(100) >= p_bad / 2 { m.push(("first".to_string(), pick(ctx, BYTES, BYTES_BAD, p_bad).to_string())); }
+        if ctx.rng.bool() { m.push(("second".to_string(), if ctx.rng.below(5) == 0 { "null".to_string() } else { pick(ctx, BYTES, BYTES_BAD, p_bad).to_string() })); }
+        obj(ctx, m, p_bad / 3, &[])
+    }
+    fn prf_inputs(ctx: &mut Ctx, p_bad: u64) -> String {
+        if ctx.rng.below(100) < p_bad / 3 { return (*ctx.rng.pick(&["null", "5", "[]"])).to_string(); }
+        let mut m = vec![];
+        if ctx.rng.bool() { m.push(("eval".to_string(), prf_values(ctx, p_bad))); }
+        if ctx.rng.bool() {
+            let n = ctx.rng.below(3);
+            let mut es: Vec<(String, String)> = (0..n).map(|_| ((*ctx.rng.pick(&["AQID", "k", "", "zz"])).to_string(), prf_values(ctx, p_bad))).collect();
+            if !es.is_empty() && ctx.rng.below(4) == 0 { let e = (es[0].0.clone(), prf_values(ctx, 0)); es.push(e); }   // the same key twice: the later value stays
+            m.push(("evalByCredential".to_string(), format!("{{{}}}", es.iter().map(|(k, v)| format!("\"{}\":{}", k, v)).collect::<Vec<_>>().join(","))));
+        }
+        obj(ctx, m, p_bad / 3, &[])
+    }
+    pub fn extensions(ctx: &mut Ctx, p_bad: u64) -> String {
+        if ctx.rng.below(100) < p_bad / 3 { return (*ctx.rng.pick(&["null", "5", "\"prf\"", "[]"])).to_string(); }
+        let mut m = vec![];
+        if ctx.rng.bool() { m.push(("credProps".to_string(), pick(ctx, &["true", "false", "null"], &["\"yes\"", "1", "[]"], p_bad).to_string())); }
+        if ctx.rng.bool() { m.push(("prf".to_string(), prf_inputs(ctx, p_bad))); }
+        if ctx.rng.below(4) == 0 { m.push(("prfAlreadyHashed".to_string(), prf_inputs(ctx, p_bad))); }
+        obj(ctx, m, p_bad / 3, &[])
+    }
+    const UV: &[&str] = &["required", "preferred", "discouraged"];
+    const ATT: &[&str] = &["none", "indirect", "direct", "enterprise"];
+    const FMT: &[&str] = &["packed", "tpm", "android-key", "android-safetynet", "fido-u2f", "apple", "none"];
+    const HINTS: &[&str] = &["security-key", "client-device", "hybrid"];
+    pub fn request(ctx: &mut Ctx, p_bad: u64) -> String {
+        let mut m = vec![];
+        if ctx.rng.below(100) >= p_bad / 4 { m.push(("challenge".to_string(), pick(ctx, BYTES, BYTES_BAD, p_bad / 2).to_string())); }
+        if ctx.rng.bool() { m.push(("timeout".to_string(), pick(ctx, NUM, NUM_BAD, p_bad).to_string())); }
+        if ctx.rng.bool() { m.push(("rpId".to_string(), pick(ctx, &[STR[0], STR[1], STR[2], "null"], STR_BAD, p_bad).to_string())); }
+        if ctx.rng.bool() { let l = list(ctx, |c| descriptor(c, p_bad), p_bad / 2); m.push(((if ctx.rng.below(5) == 0 { "allowList" } else { "allowCredentials" }).to_string(), l)); }
+        if ctx.rng.bool() { m.push(("userVerification".to_string(), en(ctx, UV, p_bad / 2))); }
+        if ctx.rng.bool() { let l = list(ctx, |c| en(c, HINTS, 20), p_bad / 2); m.push(("hints".to_string(), l)); }
+        if ctx.rng.bool() { m.push(("attestation".to_string(), en(ctx, ATT, p_bad / 2))); }
+        if ctx.rng.below(3) == 0 { let l = list(ctx, |c| en(c, FMT, 20), p_bad / 2); m.push(("attestationFormats".to_string(), l)); }
+        if ctx.rng.bool() { m.push(("extensions".to_string(), extensions(ctx, p_bad))); }
+        obj(ctx, m, p_bad / 3, &[("allowCredentials", "allowList"), ("allowList", "allowCredentials")])
+    }
+    fn param(ctx: &mut Ctx, p_bad: u64) -> String {
+        if ctx.rng.below(100) < p_bad / 2 { return (*ctx.rng.pick(&["5", "null", "[]", "\"x\"", "{}"])).to_string(); }
+        let mut m = vec![];
+        if ctx.rng.below(100) >= p_bad / 2 { m.push(("type".to_string(), en(ctx, &["public-key"], p_bad))); }
+        if ctx.rng.below(100) >= p_bad / 2 { m.push(("alg".to_string(), pick(ctx, &["-7", "-257", "\"-7\"", "-7.0", "\"-257.0\"", "-8", "-65535", "1"], &["99", "null", "\"abc\"", "true", "-7.5", "8", "[]", "9223372036854775807"], p_bad).to_string())); }
+        obj(ctx, m, p_bad / 2, &[])
+    }
+    pub fn selection(ctx: &mut Ctx, p_bad: u64) -> String {
+        if ctx.rng.below(100) < p_bad / 3 { return (*ctx.rng.pick(&["null", "5", "[]", "\"required\""])).to_string(); }
+        let mut m = vec![];
+        if ctx.rng.bool() { m.push(("authenticatorAttachment".to_string(), if ctx.rng.below(6) == 0 { "null".to_string() } else { en(ctx, &["platform", "cross-platform"], p_bad / 2) })); }
+        if ctx.rng.bool() { m.push(("residentKey".to_string(), if ctx.rng.below(6) == 0 { "null".to_string() } else { en(ctx, UV, p_bad / 2) })); }
+        if ctx.rng.bool() { m.push(("requireResidentKey".to_string(), pick(ctx, &["true", "false"], &["\"yes\"", "null", "1"], p_bad).to_string())); }
+        if ctx.rng.bool() { m.push(("userVerification".to_string(), en(ctx, UV, p_bad / 2))); }
+        obj(ctx, m, p_bad / 3, &[])
+    }
+    pub fn creation(ctx: &mut Ctx, p_bad: u64) -> String {
+        let mut m = vec![];
+        if ctx.rng.below(100) >= p_bad / 4 {
+            let mut rp = vec![];
+            if ctx.rng.bool() { rp.push(("id".to_string(), pick(ctx, &[STR[0], "null"], STR_BAD, p_bad).to_string())); }
+            if ctx.rng.below(100) >= p_bad / 3 { rp.push(("name".to_string(), pick(ctx, STR, STR_BAD, p_bad).to_string())); }
+            let v = if ctx.rng.below(100) < p_bad / 4 { (*ctx.rng.pick(&["null", "5", "[]"])).to_string() } else { obj(ctx, rp, p_bad / 3, &[]) };
+            m.push(("rp".to_string(), v));
+        }
+        if ctx.rng.below(100) >= p_bad / 4 {
+            let mut u = vec![];
+            if ctx.rng.below(100) >= p_bad / 3 { u.push(("id".to_string(), pick(ctx, BYTES, BYTES_BAD, p_bad).to_string())); }
+            if ctx.rng.below(100) >= p_bad / 3 { u.push(("name".to_string(), pick(ctx, STR, STR_BAD, p_bad).to_string())); }
+            if ctx.rng.below(100) >= p_bad / 3 { u.push(("displayName".to_string(), pick(ctx, STR, STR_BAD, p_bad).to_string())); }
+            m.push(("user".to_string(), obj(ctx, u, p_bad / 3, &[])));
+        }
+        if ctx.rng.below(100) >= p_bad / 4 { m.push(("challenge".to_string(), pick(ctx, BYTES, BYTES_BAD, p_bad / 2).to_string())); }
+        if ctx.rng.below(100) >= p_bad / 4 { let l = list(ctx, |c| param(c, p_bad), p_bad / 3); m.push(("pubKeyCredParams".to_string(), l)); }
+        if ctx.rng.bool() { m.push(("timeout".to_string(), pick(ctx, NUM, NUM_BAD, p_bad).to_string())); }
+        if ctx.rng.bool() { let l = list(ctx, |c| descriptor(c, p_bad), p_bad / 2); m.push(("excludeCredentials".to_string(), l)); }
+        if ctx.rng.bool() { m.push(("authenticatorSelection".to_string(), selection(ctx, p_bad))); }
+        if ctx.rng.below(3) == 0 { let l = list(ctx, |c| en(c, HINTS, 20), p_bad / 2); m.push(("hints".to_string(), l)); }
+        if ctx.rng.bool() { m.push(("attestation".to_string(), en(ctx, ATT, p_bad / 2))); }
+        if ctx.rng.below(3) == 0 { let l = list(ctx, |c| en(c, FMT, 20), p_bad / 2); m.push(("attestationFormats".to_string(), l)); }
+        if ctx.rng.bool() { m.push(("extensions".to_string(), extensions(ctx, p_bad))); }
+        obj(ctx, m, p_bad / 3, &[])
+    }
+}
+
+/// one option document through the real struct parser, rendered member by member
+fn opts_line(ctx: &mut Ctx, root: &str, doc: &str) {
+    use canon::Canon;
+    fn show<T: Canon>(r: Option<Result<T, serde_json::Error>>) -> String { match r { None => "panic".into(), Some(Ok(v)) => format!("ok:{}", v.c()), Some(Err(_)) => "err".into() } }
+    let obs = match root {
+        "PublicKeyCredentialRequestOptions" => show(guarded(|| serde_json::from_str::<PublicKeyCredentialRequestOptions>(doc))),
+        "PublicKeyCredentialCreationOptions" => show(guarded(|| serde_json::from_str::<webauthn::PublicKeyCredentialCreationOptions>(doc))),
+        "CredentialRequestOptions" => show(guarded(|| serde_json::from_str::<webauthn::CredentialRequestOptions>(doc))),
+        "CredentialCreationOptions" => show(guarded(|| serde_json::from_str::<webauthn::CredentialCreationOptions>(doc))),
+        "PublicKeyCredentialDescriptor" => show(guarded(|| serde_json::from_str::<webauthn::PublicKeyCredentialDescriptor>(doc))),
+        "AuthenticatorSelectionCriteria" => show(guarded(|| serde_json::from_str::<webauthn::AuthenticatorSelectionCriteria>(doc))),
+        "AuthenticationExtensionsClientInputs" => show(guarded(|| serde_json::from_str::<webauthn::AuthenticationExtensionsClientInputs>(doc))),
+        _ => "bad-root".into(),
+    };
+    ctx.stat(&format!("c14.opts.{}.{}", root, obs.split(':').next().unwrap()));
+    ctx.line(&format!("js.opts {} {}", root, hexf(doc.as_bytes())), &obs);
+}
+
 pub fn gen(ctx: &mut Ctx) {
     ctx.line("js.reset", "");
     // ---- leaf presentations
@@ -154,6 +349,7 @@ pub fn gen(ctx: &mut Ctx) {
                 let obs = match res { None => "panic".to_string(), Some(Ok(o)) => format!("ok:{}", hexf(format!("{:?}", o).as_bytes())), Some(Err(e)) => format!("err:{}", hexf(e.to_string().as_bytes())) };
                 ctx.stat(&format!("c14.request.{}", obs.split(':').next().unwrap()));
                 ctx.line(&format!("js.parse request {}", hexf(doc.as_bytes())), &obs);
+                opts_line(ctx, "PublicKeyCredentialRequestOptions", &doc);
             }
         } else {
             let c = rand_cre(ctx);
@@ -164,8 +360,23 @@ pub fn gen(ctx: &mut Ctx) {
                 let obs = match res { None => "panic".to_string(), Some(Ok(o)) => format!("ok:{}", hexf(format!("{:?}", o).as_bytes())), Some(Err(e)) => format!("err:{}", hexf(e.to_string().as_bytes())) };
                 ctx.stat(&format!("c14.creation.{}", obs.split(':').next().unwrap()));
                 ctx.line(&format!("js.parse creation {}", hexf(doc.as_bytes())), &obs);
+                opts_line(ctx, "PublicKeyCredentialCreationOptions", &doc);
             }
         }
+    }
+    // ---- the struct-level model against the derived parsers: mostly-valid documents, and a malformed stream
+    let n = if ctx.thorough { 4000 } else { 500 };
+    for i in 0..n {
+        let p_bad = if i % 3 == 2 { 30 } else { 4 };
+        let (root, doc) = match i % 7 {
+            0 | 1 => ("PublicKeyCredentialRequestOptions", docs::request(ctx, p_bad)),
+            2 | 3 => ("PublicKeyCredentialCreationOptions", docs::creation(ctx, p_bad)),
+            4 => if ctx.rng.bool() { ("CredentialRequestOptions", format!("{{\"publicKey\":{}}}", docs::request(ctx, p_bad))) } else { ("CredentialCreationOptions", format!("{{\"mediation\":\"optional\",\"publicKey\":{}}}", docs::creation(ctx, p_bad))) },
+            5 => ("PublicKeyCredentialDescriptor", docs::descriptor(ctx, p_bad)),
+            _ => if ctx.rng.bool() { ("AuthenticatorSelectionCriteria", docs::selection(ctx, p_bad)) } else { ("AuthenticationExtensionsClientInputs", docs::extensions(ctx, p_bad)) },
+        };
+        ctx.stat(if p_bad > 10 { "c14.opts.malformed_stream" } else { "c14.opts.mostly_valid_stream" });
+        opts_line(ctx, root, &doc);
     }
     // ---- emitted credentials re-parse to an equal value; base64url round trip
     for i in 0..(if ctx.thorough { 100 } else { 15 }) {
